@@ -34,6 +34,24 @@ type Scenario struct {
 	CancelMs int      `json:"cancelMs"`
 	BatchMs  int      `json:"batchMs"` // the broker answers what has arrived every BatchMs (pipelining)
 	Waves    int      `json:"waves"`   // requests are issued in this many waves, 30 ms apart
+	// user hooks that take (virtual) time: OnBrokerWrite after a request was written (before the client registers it as awaiting
+	// its answer) and OnBrokerDisconnect while a connection is being torn down. They widen the window in which a request is
+	// written on a connection that dies before the request is registered.
+	WriteHookMs int `json:"writeHookMs,omitempty"`
+	DiscHookMs  int `json:"discHookMs,omitempty"`
+}
+
+type slowHooks struct{ writeMs, discMs int }
+
+func (h slowHooks) OnBrokerWrite(_ kgo.BrokerMetadata, key int16, _ int, _, _ time.Duration, _ error) {
+	if h.writeMs > 0 && key == int16(kmsg.DescribeGroups) {
+		time.Sleep(time.Duration(h.writeMs) * time.Millisecond)
+	}
+}
+func (h slowHooks) OnBrokerDisconnect(kgo.BrokerMetadata, net.Conn) {
+	if h.discMs > 0 {
+		time.Sleep(time.Duration(h.discMs) * time.Millisecond)
+	}
 }
 
 var behaviours = []string{"ok", "ok", "ok", "ok", "silence", "silence", "throttled", "wrongcorr", "swap", "truncated", "oversized", "negative", "short", "garbage", "close", "stall", "partial"}
@@ -55,6 +73,15 @@ func gen(seed int64) Scenario {
 	if r.Intn(4) == 0 {
 		sc.Cancel = append(sc.Cancel, r.Intn(sc.N))
 		sc.CancelMs = r.Intn(30)
+	}
+	if r.Intn(3) == 0 {
+		sc.WriteHookMs = []int{0, 5, 30}[r.Intn(3)]
+		sc.DiscHookMs = []int{0, 20, 100}[r.Intn(3)]
+		if r.Intn(2) == 0 {
+			// the shape the hooks are for: an early request is never answered, a later one makes the broker close the connection
+			sc.Script[r.Intn(2)] = "silence"
+			sc.Script[2+r.Intn(2)] = "close"
+		}
 	}
 	return sc
 }
@@ -268,7 +295,7 @@ func runScenario(t *testing.T, rec *sim.Recorder, sc Scenario) {
 		go b.accept()
 		go b.ticker()
 		cl, err := kgo.NewClient(kgo.SeedBrokers("127.0.0.1:9092"), kgo.Dialer(vnet.DialContext), kgo.RequestRetries(0), kgo.DisableClientMetrics(),
-			kgo.RequestTimeoutOverhead(2*time.Second), kgo.BrokerMaxReadBytes(1<<20), kgo.FetchMaxBytes(1<<19))
+			kgo.RequestTimeoutOverhead(2*time.Second), kgo.BrokerMaxReadBytes(1<<20), kgo.FetchMaxBytes(1<<19), kgo.WithHooks(slowHooks{sc.WriteHookMs, sc.DiscHookMs}))
 		if err != nil {
 			t.Fatal(err)
 		}
